@@ -90,6 +90,9 @@ static inline std::vector<Item> pool()
     v.push_back({"... timestamp high word differs", [] { auto p = distinctive(0x44, ST::intermediarySegment, 0xFE); p.setTimestamp(0x778899ABBBCCDDEEull); return p; }, true});
     v.push_back({"... payload one byte longer", [] { auto p = distinctive(0x44, ST::intermediarySegment, 0xFE); Bytes d = pat(6, 2); p.setPayload(A::Payload(A::PayloadType(A::CmpHeader::MessageType::data, 0xFE), d.data(), d.size())); return p; }, true});
     v.push_back({"one-byte payload", [] { A::Packet p; uint8_t b = 0x5A; p.setPayload(A::Payload(A::PayloadType(0x01FEu), &b, 1)); return p; }, true});
+    v.push_back({"one-byte payload, other byte", [] { A::Packet p; uint8_t b = 0x5B; p.setPayload(A::Payload(A::PayloadType(0x01FEu), &b, 1)); return p; }, true});
+    v.push_back({"... first payload byte differs", [] { auto p = distinctive(0x44, ST::intermediarySegment, 0xFE); Bytes d = pat(5, 2); d[0] ^= 0x80; p.setPayload(A::Payload(A::PayloadType(A::CmpHeader::MessageType::data, 0xFE), d.data(), d.size())); return p; }, true});
+    v.push_back({"... last payload byte differs", [] { auto p = distinctive(0x44, ST::intermediarySegment, 0xFE); Bytes d = pat(5, 2); d[4] ^= 0x01; p.setPayload(A::Payload(A::PayloadType(A::CmpHeader::MessageType::data, 0xFE), d.data(), d.size())); return p; }, true});
     return v;
 }
 
@@ -315,6 +318,10 @@ static inline std::vector<std::pair<std::string, std::function<A::Payload()>>> a
         {"LinPayload 8", [] { A::LinPayload c; Bytes d = pat(8, 3); c.setData(d.data(), 8); return PL(c); }},
         {"EthernetPayload 100", [] { A::EthernetPayload c; Bytes d = pat(100, 4); c.setData(d.data(), 100); return PL(c); }},
         {"generic 6 bytes", [] { Bytes d = pat(6, 1); return PL(A::PayloadType(0x01FEu), d.data(), 6); }},
+        {"generic 5 bytes, first byte differs", [] { Bytes d = pat(5, 1); d[0] ^= 0x80; return PL(A::PayloadType(0x01FEu), d.data(), 5); }},
+        {"generic 5 bytes, last byte differs", [] { Bytes d = pat(5, 1); d[4] ^= 0x01; return PL(A::PayloadType(0x01FEu), d.data(), 5); }},
+        {"one byte", [] { uint8_t b = 7; return PL(A::PayloadType(0x01FEu), &b, 1); }},
+        {"one byte, other value", [] { uint8_t b = 8; return PL(A::PayloadType(0x01FEu), &b, 1); }},
     };
 }
 static inline std::vector<std::pair<std::string, std::function<TECMP::Payload()>>> tecmpPayloads()
@@ -326,6 +333,10 @@ static inline std::vector<std::pair<std::string, std::function<TECMP::Payload()>
         {"TECMP CanPayload 13 bytes, one differs", [] { Bytes d = pat(13, 5); d[9] ^= 4; return PL(TECMP::CanPayload(d.data(), 13)); }},
         {"TECMP LinPayload 13 bytes (same bytes, other type)", [] { Bytes d = pat(13, 5); return PL(TECMP::LinPayload(d.data(), 13)); }},
         {"TECMP CanPayload default", [] { return PL(TECMP::CanPayload()); }},
+        {"TECMP CanPayload 13 bytes, first byte differs", [] { Bytes d = pat(13, 5); d[0] ^= 0x80; return PL(TECMP::CanPayload(d.data(), 13)); }},
+        {"TECMP CanPayload 13 bytes, last byte differs", [] { Bytes d = pat(13, 5); d[12] ^= 0x01; return PL(TECMP::CanPayload(d.data(), 13)); }},
+        {"one byte", [] { uint8_t b = 7; return PL(TECMP::PayloadType(TECMP::PayloadType::can), &b, 1); }},
+        {"one byte, other value", [] { uint8_t b = 8; return PL(TECMP::PayloadType(TECMP::PayloadType::can), &b, 1); }},
         {"empty, type can", [] { return PL(TECMP::PayloadType(TECMP::PayloadType::can), nullptr, 0); }},
     };
 }
@@ -339,7 +350,7 @@ static int runC14(mc::Run& run, const mc::Options& opt)
     run.rule = ofmt("pool of %zu packets (no payload, zero-length payloads of three types, equal-looking pairs, typed, decoder-produced, distinctive headers): every ordered pair "
                     "(source, target) x {copy-construct, move-construct, copy-assign, move-assign}, self copy/move assignment, every sequence of two assignments into every "
                     "target, equality on every ordered pair (reflexive, symmetric, agrees with field-by-field for non-empty payloads, != is the negation); the same for "
-                    "all ordered pairs of 9 Payload and 6 TECMP::Payload objects; observation = all getters + payload presence/type/bytes, under ASan in forked workers; "
+                    "all ordered pairs of 13 Payload and 10 TECMP::Payload objects; observation = all getters + payload presence/type/bytes, under ASan in forked workers; "
                     "distinct = distinct (operation, source, target / verdict) outcomes",
                     P.size());
     const std::vector<std::string> ops = {"copy-construct", "move-construct", "copy-assign", "move-assign"};
